@@ -497,6 +497,9 @@ def fresh_results(calls):
     for what, f, render in calls:
         try:
             r1 = f(); before = render(r1)
+            # the result is a real container: it has a length and can be read more than once
+            if render(r1) != before or len(r1) != len(list(r1)):
+                bad.append('%s returns something that cannot be read twice' % what)
             spoil(r1)
             if render(f()) != before:
                 bad.append('%s returns something else after the caller modified the container it was given' % what)
